@@ -82,6 +82,19 @@ func Call(controller, method string, args ...any) {
 			}
 			continue
 		}
+		if rv := reflect.ValueOf(a); rv.IsValid() {
+			// []uint8 would be marshalled as base64 text: record it as the list of numbers it is
+			if rv.Kind() == reflect.Ptr && !rv.IsNil() {
+				rv = rv.Elem()
+			}
+			if rv.Kind() == reflect.Slice && rv.Type().Elem().Kind() == reflect.Uint8 && rv.Type() != reflect.TypeOf(json.RawMessage{}) {
+				nums := make([]int, rv.Len())
+				for i := range nums {
+					nums[i] = int(rv.Index(i).Uint())
+				}
+				a = nums
+			}
+		}
 		b, err := json.Marshal(a)
 		if err != nil {
 			b = []byte("\"<unmarshalable: " + err.Error() + ">\"")
